@@ -16,20 +16,20 @@ import (
 )
 
 func (O *OWAPreferenceFunc) Spec_ParseParams(dm *model.DecisionMaker) interface{} {
-	originalWeights := model.ExtractWeights(dm)
+	originalWeights := model.Spec_ExtractWeights(dm)
 	weightsCount := len(originalWeights)
 	if weightsCount != len(dm.Criteria) {
 		panic(fmt.Errorf("Weights count (%d) not equal to criteria count (%d) for OWA", weightsCount, len(dm.Criteria)))
 	}
-	weights := toArray(&originalWeights, &dm.Criteria)
-	_sortWeightsMutate(weights)
+	weights := Spec_toArray(&originalWeights, &dm.Criteria)
+	Spec__sortWeightsMutate(weights)
 	return owaParams{Weights: weights}
 }
 
 func Spec_toArray(weights *model.Weights, criteria *model.Criteria) *model.WeightedCriteria {
 	result := make(model.WeightedCriteria, len(*weights))
 	for i, v := range *criteria {
-		result[i] = model.WeightedCriterion{Criterion: v, Weight: weights.Fetch(v.Id)}
+		result[i] = model.WeightedCriterion{Criterion: v, Weight: weights.Spec_Fetch(v.Id)}
 	}
 	return &result
 }
@@ -39,27 +39,27 @@ func (O *OWAPreferenceFunc) Spec_Identifier() string {
 }
 
 func (O *OWAPreferenceFunc) Spec_MethodParameters() interface{} {
-	return model.WeightsParamOnly()
+	return model.Spec_WeightsParamOnly()
 }
 
 func (O *OWAPreferenceFunc) Spec_Evaluate(dmp *model.DecisionMakingParams) *model.AlternativesRanking {
 	weights := dmp.MethodParameters.(owaParams)
 	prefFunc := func(alternative *model.AlternativeWithCriteria) *model.AlternativeResult {
-		return OWA(*alternative, *weights.Weights)
+		return Spec_OWA(*alternative, *weights.Weights)
 	}
-	return model.Rank(dmp, prefFunc)
+	return model.Spec_Rank(dmp, prefFunc)
 }
 
 func Spec_OWA(alternative model.AlternativeWithCriteria, weights model.WeightedCriteria) *model.AlternativeResult {
-	sortedWeights := sortWeights(&weights)
-	return owa(&alternative, sortedWeights)
+	sortedWeights := Spec_sortWeights(&weights)
+	return Spec_owa(&alternative, sortedWeights)
 }
 
 func Spec_owa(alternative *model.AlternativeWithCriteria, sortedWeights *model.WeightedCriteria) *model.AlternativeResult {
-	validateSameCriteriaAndWeightsCount(alternative, sortedWeights)
-	sortedAlternativeCriteriaWeights := sortAlternativeCriteriaWeights(alternative)
-	total := calculateTotalAlternativeValue(sortedWeights, sortedAlternativeCriteriaWeights)
-	return model.ValueAlternativeResult(alternative, total)
+	Spec_validateSameCriteriaAndWeightsCount(alternative, sortedWeights)
+	sortedAlternativeCriteriaWeights := Spec_sortAlternativeCriteriaWeights(alternative)
+	total := Spec_calculateTotalAlternativeValue(sortedWeights, sortedAlternativeCriteriaWeights)
+	return model.Spec_ValueAlternativeResult(alternative, total)
 }
 
 func Spec_calculateTotalAlternativeValue(sortedWeights *model.WeightedCriteria, sortedCriteriaWeights *[]model.Weight) model.Weight {
@@ -84,7 +84,7 @@ func Spec_sortAlternativeCriteriaWeights(alternative *model.AlternativeWithCrite
 func Spec_sortWeights(weights *model.WeightedCriteria) *model.WeightedCriteria {
 	tmpWeights := make(model.WeightedCriteria, len(*weights))
 	copy(tmpWeights, *weights)
-	_sortWeightsMutate(&tmpWeights)
+	Spec__sortWeightsMutate(&tmpWeights)
 	return &tmpWeights
 }
 
@@ -92,9 +92,9 @@ func (o *owaParams) Spec_merge(other *owaParams) *owaParams {
 	originalLen := len(*o.Weights)
 	result := make(model.WeightedCriteria, originalLen+len(*other.Weights))
 	validationCache := make(map[string]bool, originalLen+len(*other.Weights))
-	addCriteria(o.Weights, &result, &validationCache, 0)
-	addCriteria(other.Weights, &result, &validationCache, originalLen)
-	_sortWeightsMutate(&result)
+	Spec_addCriteria(o.Weights, &result, &validationCache, 0)
+	Spec_addCriteria(other.Weights, &result, &validationCache, originalLen)
+	Spec__sortWeightsMutate(&result)
 	return &owaParams{Weights: &result}
 }
 
@@ -110,7 +110,7 @@ func (o *owaParams) Spec_find(criterion *model.Criterion) *model.WeightedCriteri
 func Spec_addCriteria(toAdd, result *model.WeightedCriteria, validationCache *map[string]bool, offset int) {
 	for i, w := range *toAdd {
 		if _, ok := (*validationCache)[w.Id]; ok {
-			criterionAlreadyExist(&w.Criterion, result)
+			Spec_criterionAlreadyExist(&w.Criterion, result)
 		}
 		(*result)[i+offset] = w
 		(*validationCache)[w.Id] = true
